@@ -2,6 +2,7 @@
 //! properties: C10 C03
 //! note: restart, rebuilding outbound payments from the monitors of closed channels (channelmanager.rs from_channel_manager_data): a payment part still pending in a closed channel's monitor is put back only for a non-empty path (an empty one fails the read); a part the monitor knows the preimage for is claimed with the completion action that releases THIS monitor's payment-complete update for THIS HTLC; when the claim was a duplicate and no queued event still carries that action, the monitor is told so by a ReleasePaymentComplete update numbered right after the last id given out for the channel (remembered), queued behind the earlier background events; an HTLC the monitor reports as failed on chain is failed with OnChainTimeout and the completion update of this monitor and HTLC
 //! trusted: R15 (deep slices of from_channel_manager_data): each slice carries the named statements verbatim as a function of the values in scope; the monitor is a skeleton answering its counterparty, funding outpoint and channel id; SentHTLCId::from_source is uninterpreted; the scan `pending_events.iter().any(|(_, act)| *act == compl_action)` is written as a loop with the predicate carried through a capture (R6 any), equality of completion actions through the wrapper action_eq (structural equality); the lookups of the peer state and of the channel's last update id (`.expect(..)`) are the parameter update_id
+//! trusted: R15 (deep slices, second batch): the branch for a channel without a monitor, the statements that decide whether a monitor without a channel is force-closed and which id is remembered for it, the force-close update built for it, the `and_modify` closure that merges the remembered id (second occurrence); monitors and channels are skeletons answering the accessors used
 //! trusted: assume_specification for core::cmp::max / core::cmp::min (std definitions): present in every unit so that a change that introduces them is verified instead of being rejected by the tool
 use vstd::prelude::*;
 verus! {
@@ -139,6 +140,82 @@ pub struct SecretKey { pub bytes: [u8; 32] }
     session_priv_bytes, &path,
 //@with
     [0; 32], &path,
+//@end
+
+// ---- channels and monitors that do not match ----
+pub struct ChanStub { pub awaiting_initial: bool }
+impl ChanStub { #[verifier::external_body] pub fn is_awaiting_initial_mon_persist(&self) -> (r: bool) ensures r == self.awaiting_initial { unimplemented!() } }
+pub enum Reason { DisconnectedPeer, Other }
+//@extract lightning/src/ln/channelmanager.rs :: impl ChannelManager :: fn from_channel_manager_data
+//@slice R15
+    } else if $await:cond { channel_closures.push_back(( events::Event::ChannelClosed { $ev:any }, None, )); } else { return Err($e:seq); }
+//@with
+    fn channel_without_a_monitor_is_discarded_or_refused(channel: &ChanStub) -> Result<(), DecodeError> { if $await { Ok(()) } else { return Err($e); } }
+//@ret r
+//@ensures P C10 a-channel-whose-monitor-is-missing-is-dropped-only-if-its-initial-monitor-was-never-persisted-so-its-funding-was-never-broadcast-and-otherwise-the-manager-is-not-loaded
+    r is Ok <==> channel.awaiting_initial,
+//@mutant manager_loaded_although_a_needed_monitor_is_missing
+    return Err(DecodeError::InvalidValue); } } for (channel_id, monitor) in args.channel_monitors.iter() { if !channel_id_set.contains(channel_id)
+//@with
+    } } for (channel_id, monitor) in args.channel_monitors.iter() { if !channel_id_set.contains(channel_id)
+//@end
+pub struct Mon2 { pub closed: bool, pub latest: u64, pub chan: ChannelId }
+impl Mon2 {
+    #[verifier::external_body] pub fn no_further_updates_allowed(&self) -> (r: bool) ensures r == self.closed { unimplemented!() }
+    #[verifier::external_body] pub fn get_latest_update_id(&self) -> (r: u64) ensures r == self.latest { unimplemented!() }
+    #[verifier::external_body] pub fn channel_id(&self) -> (r: ChannelId) ensures r == self.chan { unimplemented!() }
+}
+//@extract lightning/src/ln/channelmanager.rs :: impl ChannelManager :: fn from_channel_manager_data
+//@slice R15
+    let mut should_queue_fc_update = false; let counterparty_node_id = monitor.get_counterparty_node_id(); if $track:cond { should_queue_fc_update = $q:seq; let mut latest_update_id = monitor.get_latest_update_id(); if should_queue_fc_update { latest_update_id = $bump:seq; } per_peer_state
+//@with
+    fn monitor_without_a_channel(monitor: &Mon2) -> (bool, Option<u64>) {
+        let mut should_queue_fc_update = false;
+        let mut tracked: Option<u64> = None;
+        if $track { should_queue_fc_update = $q; let mut latest_update_id = monitor.get_latest_update_id(); if should_queue_fc_update { latest_update_id = $bump; } tracked = Some(latest_update_id); }
+        (should_queue_fc_update, tracked)
+    }
+//@ret r
+//@ensures P C10 a-monitor-the-manager-has-no-channel-for-is-force-closed-unless-it-already-is-and-the-id-remembered-for-it-is-the-one-its-next-update-will-carry-or-its-last
+    r.0 == !monitor.closed,
+    r.1 == (if !monitor.closed { Some(if monitor.latest == u64::MAX { u64::MAX } else { (monitor.latest + 1) as u64 }) } else if monitor.latest > 1 { Some(monitor.latest) } else { None::<u64> }),
+//@mutant open_monitor_without_a_channel_left_open
+    should_queue_fc_update = !monitor.no_further_updates_allowed();
+//@with
+    should_queue_fc_update = monitor.no_further_updates_allowed();
+//@end
+pub enum Step2 { ChannelForceClosed { should_broadcast: bool }, Other }
+pub struct Update2 { pub update_id: u64, pub updates: Vec<Step2>, pub channel_id: Option<ChannelId> }
+//@extract lightning/src/ln/channelmanager.rs :: impl ChannelManager :: fn from_channel_manager_data
+//@slice R15
+    let channel_id = monitor.channel_id(); let monitor_update = ChannelMonitorUpdate { $f:any };
+//@with
+    fn force_close_update_for_a_monitor_without_a_channel(monitor: &Mon2) -> Update2 { let channel_id = monitor.channel_id(); let monitor_update = Update2 { $f }; monitor_update }
+//@rw R5
+    ChannelMonitorUpdateStep::ChannelForceClosed
+//@with
+    Step2::ChannelForceClosed
+//@ret r
+//@ensures P C10,C05 the-update-that-closes-a-channel-the-manager-no-longer-knows-is-numbered-right-after-the-monitors-last-asks-for-the-broadcast-of-its-commitment-and-names-the-monitors-channel
+    r.update_id == (if monitor.latest == u64::MAX { u64::MAX } else { (monitor.latest + 1) as u64 }), r.channel_id == Some(monitor.chan),
+    r.updates@ =~= seq![Step2::ChannelForceClosed { should_broadcast: true }],
+//@mutant forgotten_channel_closed_without_broadcasting
+    should_broadcast: true,
+//@with
+    should_broadcast: false,
+//@end
+//@extract lightning/src/ln/channelmanager.rs :: impl ChannelManager :: fn from_channel_manager_data
+//@slice R15 nth=2
+    .and_modify(|v| *v = $e:seq)
+//@with
+    fn id_remembered_for_a_closed_channel(v_: u64, latest_update_id: u64) -> u64 { let v = &v_; $e }
+//@ret r
+//@ensures P C10,C09 the-update-id-remembered-for-a-closed-channel-never-goes-back
+    r >= v_, r >= latest_update_id, r == v_ || r == latest_update_id,
+//@mutant remembered_id_lowered_to_the_monitors
+    cmp::max(latest_update_id, *v)
+//@with
+    cmp::min(latest_update_id, *v)
 //@end
 }
 fn main() {}
